@@ -165,7 +165,7 @@ class VectorField(DataFieldBase):
     def __getitem__(self, key: int | str) -> ScalarField:
         """Extract a component of the VectorField."""
         axis = self.grid.get_axis_index(key)
-        comp_name = self.grid.c.axes[axis]
+        comp_name = (self.grid.axes + self.grid.axes_symmetric)[axis]
         if self.label:
             label = self.label + f"_{comp_name}"
         else:
